@@ -191,7 +191,7 @@ def gen_case(rng):
             plan = dict(at=rng.randrange(1, 5 * n + 3), close=victims)
     io, io_vals, io_feature = gen_io(rng)
     return dict(pid=rng.choice([50, 7, 4194303]), fds=fds, plan=plan, io=io, io_vals=io_vals,
-                fd_reserved=rng.choice([0, 0, 0, 1, 2, 7]),
+                fd_reserved=rng.choice([0, 0, 0, 1, 2, 7]), is_caller=rng.random() < 0.15,
                 io_feature=io_feature)
 
 
@@ -300,6 +300,9 @@ def run_case(case, acc):
             d["info_gone"] = True
         p.fds[e["fd"]] = d
     p.io = _b(case["io"])
+    if case.get("is_caller"):
+        t.fake_getpid = pid              # os.getpid() answers this pid: the process inspects itself
+        acc.count("cases_where_the_process_inspects_itself")
     p.fd_reserved = case.get("fd_reserved", 0)     # numbers reserved by system calls in progress (counted by st_size only)
     viols = []
 
@@ -628,6 +631,28 @@ def run_live(shard, acc):
         for doc, key in IO_DOC.items():
             if getattr(io, doc, None) != raw.get(key):
                 viols.append(("live:io_counters_wrong", f"{doc}: got {getattr(io, doc, None)} kernel {key}={raw.get(key)}"))
+        # the calling process itself, with a hole below its highest descriptor
+        mine = []
+        for nm in ("self_a.txt", "self_b.txt", "self_c.txt"):
+            pth = os.path.join(tmp, nm)
+            with open(pth, "w") as f_:
+                f_.write("x")
+            mine.append(os.open(pth, os.O_RDONLY))
+        try:
+            os.close(mine.pop(0))
+            me = ps.Process()
+            got_self = {r_.fd: r_.path for r_ in me.open_files() if r_.path.startswith(tmp)}
+            want_self = {fd: os.readlink(f"/proc/self/fd/{fd}") for fd in mine}
+            acc.count("entries_compared", len(want_self))
+            if got_self != want_self:
+                viols.append(("live:open_files_of_calling_process_wrong", f"got {got_self} want {want_self}"))
+            n_self = me.num_fds()
+            n_ref = len(os.listdir("/proc/self/fd")) - 1          # minus the descriptor of that very listing
+            if n_self not in (n_ref, n_ref + 1):
+                viols.append(("live:num_fds_of_calling_process_wrong", f"got {n_self}, table has {n_ref}"))
+        finally:
+            for fd in mine:
+                os.close(fd)
         # the same through oneshot()/as_dict()
         with pr.oneshot():
             if pr.num_fds() != got_n or pr.open_files() != rows or pr.io_counters() != io:
